@@ -109,6 +109,8 @@ def invocations(src, img, undo):
         ("mke2fs -n -E discard", [T("misc/mke2fs"), "-n", "-t", "ext4", "-E", "discard", img], False),
         ("mke2fs -n -E discard,lazy_itable_init=0 -F", [T("misc/mke2fs"), "-n", "-F", "-t", "ext3", "-E", "discard,lazy_itable_init=0,lazy_journal_init=0,root_owner=1:1", "-L", "x", img], False),
         ("mke2fs -n -S", [T("misc/mke2fs"), "-n", "-S", "-t", "ext4", img], False),
+        ("mke2fs -n -q", [T("misc/mke2fs"), "-n", "-q", "-t", "ext4", img], False),
+        ("mke2fs -q -n -F -L", [T("misc/mke2fs"), "-q", "-n", "-F", "-t", "ext3", "-L", "quiet", img, "4096"], False),
         ("tune2fs -l -O (listing wins)", [T("misc/tune2fs"), "-l", img], True),
         ("e2fsck -n -D", [T("e2fsck/e2fsck"), "-fn", "-E", "journal_only", img], True),
     ]
